@@ -34,10 +34,13 @@ pub fn any_bool() -> bool { panic!("nondet: built without kani") }
 pub fn assume(c: bool) { if !c { panic!("nondet: assumption violated in native replay") } }
 
 /// Number of draws taken so far (ghost counter; lets harnesses bound rejection loops).
-static mut DRAWS: usize = 0;
-static mut MAX_DRAWS: usize = usize::MAX;
+// Kani 0.68 merges a `static mut` with constants of identical initial bytes: start from unique magics.
+const MAGIC_D: usize = 0x5EED_0000_0001_0101;
+const MAGIC_M: usize = 0x5EED_0000_0002_0201;
+static mut DRAWS: usize = MAGIC_D;
+static mut MAX_DRAWS: usize = MAGIC_M;
 /// Fairness cut for rejection loops in the code under test: executions that need more than `n` draws
 /// are outside the explored space (a draw that is rejected forever is not a finding).
-pub fn set_max_draws(n: usize) { unsafe { MAX_DRAWS = n; DRAWS = 0; } }
-pub fn count_draw() { unsafe { assume(DRAWS < MAX_DRAWS); DRAWS += 1; } }
-pub fn draws() -> usize { unsafe { DRAWS } }
+pub fn set_max_draws(n: usize) { unsafe { MAX_DRAWS = MAGIC_M + 1 + n; DRAWS = MAGIC_D; } }
+pub fn count_draw() { unsafe { assume(MAX_DRAWS == MAGIC_M || DRAWS - MAGIC_D < MAX_DRAWS - MAGIC_M - 1); DRAWS += 1; } }
+pub fn draws() -> usize { unsafe { DRAWS - MAGIC_D } }
